@@ -62,17 +62,23 @@ def fname(pkg: str) -> str:
     return ("p_" + pkg.replace("_", "-u").replace(".", "-d")) if pkg else "root"
 
 
+STYLE = {"upper": ("Tm", "Tn", "Te", "Tne"), "lower": ("shape", "point", "kind", "mode")}
+_style = ["upper"]  # naming style of the target types: set per case (type names that do not start with a capital look like
+#                     package components to anything that splits dotted names by capitalisation)
+
+
 def defs_proto(pkg: str, idx: int) -> str:
     base = 20100 + idx * 10
+    tm, tn, te, tne = STYLE[_style[0]]
     head = 'syntax = "proto3";\n' + (f"package {pkg};\n" if pkg else "")
     return head + f"""
-message Tm{idx} {{
-  message Tn {{ int32 v = 1; int32 mk{base + 1} = {base + 1}; }}
-  enum Tne {{ TNE_ZERO = 0; TNE_ONE = 1; TNE_MK = {base + 3}; }}
+message {tm}{idx} {{
+  message {tn} {{ int32 v = 1; int32 mk{base + 1} = {base + 1}; }}
+  enum {tne} {{ TNE_ZERO = 0; TNE_ONE = 1; TNE_MK = {base + 3}; }}
   int32 v = 1;
   int32 mk{base} = {base};
 }}
-enum Te{idx} {{ TE{idx}_ZERO = 0; TE{idx}_ONE = 1; TE{idx}_MK = {base + 2}; }}
+enum {te}{idx} {{ TE{idx}_ZERO = 0; TE{idx}_ONE = 1; TE{idx}_MK = {base + 2}; }}
 """
 
 
@@ -99,7 +105,7 @@ def refs_proto(pkg: str, idx: int, targets, wkt: bool, sites: str = "all") -> st
         rpcs = ""
         me = "." + (pkg + "." if pkg else "") + f"Src{idx}"
         for tp, ti in targets:
-            t = "." + (tp + "." if tp else "") + f"Tm{ti}"
+            t = "." + (tp + "." if tp else "") + f"{STYLE[_style[0]][0]}{ti}"
             a, b = (t, me) if sites == "rpc_in_only" else (me, t)
             rpcs += f"  rpc Only{ti}A ({a}) returns ({b});\n  rpc Only{ti}B (stream {a}) returns (stream {b});\n"
         return head + "".join(imports) + body + f"service Svc{idx} {{\n{rpcs}}}\n"
@@ -115,7 +121,8 @@ def refs_proto(pkg: str, idx: int, targets, wkt: bool, sites: str = "all") -> st
     rpcs = ""
     for tp, ti in targets:
         q = "." + (tp + "." if tp else "")
-        kinds = {"msg": f"{q}Tm{ti}", "nested": f"{q}Tm{ti}.Tn", "enum": f"{q}Te{ti}", "nenum": f"{q}Tm{ti}.Tne"}
+        tm, tn, te, tne = STYLE[_style[0]]
+        kinds = {"msg": f"{q}{tm}{ti}", "nested": f"{q}{tm}{ti}.{tn}", "enum": f"{q}{te}{ti}", "nenum": f"{q}{tm}{ti}.{tne}"}
         for k, t in kinds.items():
             body += f"  {t} f_{ti}_{k} = {n};\n"; n += 1
             body += f"  repeated {t} r_{ti}_{k} = {n};\n"; n += 1
@@ -137,7 +144,7 @@ def refs_proto(pkg: str, idx: int, targets, wkt: bool, sites: str = "all") -> st
     return head + "".join(imports) + body
 
 
-def validate(c: gen.Compiled, src_list, wkt, sites: str = "all"):
+def validate(c: gen.Compiled, src_list, wkt, sites: str = "all", pydantic: bool = False):
     """src_list: [(src_pkg, src_idx, [(tgt_pkg, tgt_idx)...])] -> [(clause, where, detail)]"""
     import betterproto
 
@@ -160,7 +167,10 @@ def validate(c: gen.Compiled, src_list, wkt, sites: str = "all"):
             mk = gen.marker_of_enum(cls)
             if mk:
                 by_marker[mk] = cls
-    import betterproto.lib.google.protobuf as wk
+    if pydantic:
+        import betterproto.lib.pydantic.google.protobuf as wk
+    else:
+        import betterproto.lib.google.protobuf as wk
 
     for sp, si, tgts in src_list:
         Src = by_marker.get(20100 + si * 10 + 5)
@@ -337,11 +347,22 @@ def targets(ctx):
         yield {"all": "root_with_wkt", "pkgs": ["", "a"], "wkt": True}
         # a type whose name merely *starts like* a sub-package of its own package (x.Tm0 vs package x.Tm)
         yield {"all": "type_name_extends_subpackage_name", "pkgs": ["x", "x.Tm", "x.Te", "x.Src"], "wkt": False}
+        # type names that do not start with a capital (shape0.point), in a package-less file and in packages
+        yield {"all": "lowercase_type_names", "pkgs": ["", "a", "a.b", "b"], "wkt": False, "style": "lower"}
+        # the same references generated as pydantic dataclasses (well-known types then come from the pydantic library)
+        yield {"all": "depth2_pydantic", "pkgs": ["", "a", "a.b", "b"], "wkt": True, "opts": ["pydantic_dataclasses"]}
         if ctx.thorough:
             yield {"all": "depth3_full", "pkgs": paths(), "wkt": True}
             yield {"all": "alias_shapes", "pkgs": ["", "a", "a.b", "a_b", "a.a_b", "a_b.a", "a.b.a_b", "a_b.a.b"], "wkt": False}
 
     def all_ev(case):
+        _style[0] = case.get("style", "upper")
+        try:
+            return _all_ev(case)
+        finally:
+            _style[0] = "upper"
+
+    def _all_ev(case):
         pkgs = case["pkgs"]
         files = {}
         for i, p in enumerate(pkgs):
@@ -351,11 +372,11 @@ def targets(ctx):
             tg = [(q, j) for j, q in enumerate(pkgs)]
             files[f"{fname(p)}_refs.proto"] = refs_proto(p, i, tg, wkt=case["wkt"])
             src_list.append((p, i, tg))
-        c = gen.compile_files(files, tag="c13all_")
+        c = gen.compile_files(files, opts=tuple(case.get("opts", ())), tag="c13all_")
         try:
             if c.protoc_rejected:
                 raise RuntimeError(f"protoc rejects the C13 all-at-once schema: {c.stderr[:300]}")
-            found = validate(c, src_list, case["wkt"])
+            found = validate(c, src_list, case["wkt"], pydantic="pydantic_dataclasses" in case.get("opts", ()))
             seen, fails = set(), []
             for cl, where, d in found:
                 sig = f"all:{case['all']}|{cl}|{where}"
